@@ -208,6 +208,7 @@ impl anstyle_parse::Perform for WinconCapture {
                             ColorTarget::Bg => style.bg_color(Some(color.into())),
                             ColorTarget::Underline => style.underline_color(Some(color.into())),
                         };
+                        state = State::Normal;
                         break;
                     }
                     (State::Rgb, b) => match (r, g) {
@@ -224,6 +225,7 @@ impl anstyle_parse::Perform for WinconCapture {
                                 ColorTarget::Bg => style.bg_color(Some(color.into())),
                                 ColorTarget::Underline => style.underline_color(Some(color.into())),
                             };
+                            state = State::Normal;
                             break;
                         }
                     },
@@ -255,9 +257,14 @@ impl anstyle_parse::Perform for WinconCapture {
                             | anstyle::Effects::DASHED_UNDERLINE;
                     }
                     _ => {
+                        state = State::Normal;
                         break;
                     }
                 }
+            }
+            // Underline styles are only given as subparameters
+            if state == State::Underline {
+                state = State::Normal;
             }
         }
 
